@@ -213,6 +213,10 @@ class BigEdge:
         """
         vobject = self.get_vertex_object_by_id(vid)
         if method == "edge":
+            if len(self.vertices) == 2:
+                # a two-point interface is a straight segment: its tangent is the chord itself
+                # (the circle fit degenerates to the midpoint, whose "tangent" is perpendicular to it)
+                return np.array(self.get_straight_edge_versor_from_vid(vid))
             xc, yc = ve.calculate_circle_center(self.vertices, method=fit_method)
         elif method == "cell" and cell:
             xc, yc = cell.center_x, cell.center_y
